@@ -258,7 +258,12 @@ pub struct PanicInfo {
 impl PanicInfo {
     /// Location with the /repo prefix removed, line kept: stable witness for signatures.
     pub fn witness(&self) -> String {
-        let l = self.location.strip_prefix("/repo/").unwrap_or(&self.location);
+        // repository-relative path: everything from the crate directory ("noodles-*/") on, so that a
+        // scratch worktree of the repository gives the same witness as /repo
+        let l = match self.location.find("/noodles-") {
+            Some(i) if !self.location.starts_with("/rustc/") => &self.location[i + 1..],
+            _ => self.location.strip_prefix("/repo/").unwrap_or(&self.location),
+        };
         // drop the column
         let mut parts: Vec<&str> = l.rsplitn(2, ':').collect();
         parts.reverse();
